@@ -293,6 +293,27 @@ def mingen(seed, count=40):
     return out
 
 
+def tall(seed, count=120):
+    """Tall and flat random tables (8..14 objects x 4..6 properties and transposed): many pairwise incomparable rows
+    over few properties - concepts with more covers than properties, long candidate loops in the cover search."""
+    rng = random.Random(f'{seed}:tall')
+    out = []
+    for c in range(count):
+        n, m = rng.randint(8, 14), rng.randint(4, 6)
+        k = rng.choice((2, 2, 3, m // 2))
+        rows = [sorted(rng.sample(range(1, m + 1), min(m, max(1, k + rng.choice((-1, 0, 0, 1)))))) for _ in range(n)]
+        if c % 3 == 0:
+            rows.sort(key=lambda r: (-len(r), r))
+        elif c % 3 == 1:
+            rows.sort(key=lambda r: (len(r), r))
+        t = Table(n, m, rows, f'tall{c}')
+        if c % 4 == 3:
+            cols = [[i + 1 for i in range(n) if j + 1 in rows[i]] for j in range(m)]
+            t = Table(m, n, cols, f'flat{c}')
+        out.append(t)
+    return out
+
+
 def colossal(big=False):
     """Lattices far beyond what the TLA+ lattice value can be built for here: hundreds of atoms (nominal scales) and,
     in the thorough tier, 65 537 concepts.  Judged by relational clauses on the library's own extents."""
